@@ -385,11 +385,17 @@ func (nfc *NfcSession) ReadFile(fileId uint16) (fileData []byte, err error) {
 			}
 		}
 
-		fileData = bytes.Clone(fileBuf.Bytes())
+	}
 
-		if len(fileData) != totalBytes {
-			return nil, fmt.Errorf("[ReadFile] Data read differs to expected length (exp:%d, act:%d)", totalBytes, len(fileData))
-		}
+	// NB the header read may already have returned the complete file (and, for a file
+	//    shorter than the header read, bytes beyond the top-level data object)
+	fileData = bytes.Clone(fileBuf.Bytes())
+	if len(fileData) > totalBytes {
+		fileData = fileData[:totalBytes]
+	}
+
+	if len(fileData) != totalBytes {
+		return nil, fmt.Errorf("[ReadFile] Data read differs to expected length (exp:%d, act:%d)", totalBytes, len(fileData))
 	}
 
 	slog.Debug("ReadFile", "fileId", fileId, "data", utils.BytesToHex(fileData))
